@@ -1069,12 +1069,12 @@ class PureScheduler:                                    # pylint: disable=r0902
             # find out which ones really can be added
             added = 0
             for candidate_next in possible_next_jobs:
-                # do not add an job twice
-                if candidate_next.is_running():
+                # do not add an job twice; is_scheduled() is set as soon as
+                # the task gets created, while is_running() only becomes true
+                # once the job has obtained a slot in the window
+                if candidate_next.is_scheduled():
                     continue
                 # we can start only if all requirements are satisfied
-                # at this point entry points have is_running() -> return True
-                # so they won't run this code
                 requirements_ok = True
                 for req in candidate_next.required:
                     if not req.is_done():
